@@ -41,6 +41,7 @@ Incompatible(a, b) == {a.o, b.o} = {"sanitize", "static"}
                       \/ ({a.o, b.o} = {"std"} /\ a.v # b.v)
                       \/ ({a.o, b.o} = {"warning"} /\ a.v # b.v)
                       \/ ({a.o, b.o} = {"define"} /\ a.v # b.v)
+                      \/ ({a.o, b.o} = {"include"} /\ a.v # b.v)    \* the same directory twice
                       \/ ({a.o, b.o} = {"lib"} /\ a.v # b.v)        \* two definitions of the same function
                       \* a fully static link cannot take a shared object
                       \/ (\E x \in {a, b}, y \in {a, b} : x.o = "static" /\ y.o = "lib" /\ y.v \in SharedLibFiles)
